@@ -84,6 +84,8 @@ class CircuitSystem:
                                 ops.append(['xline', list(d), dp, list(r), rp])
         for l in c.lines:
             ops.append(['line_remove', l.index])
+        if getattr(c, '_verif_removed', None) is not None:
+            ops.append(['remove_again'])      # remove() on a Line object that was removed before: must be a no-op, whatever happened to its pins since
         ios = set(id(n) for n in c.io_nodes)
         for n, ref in zip(nodes, refs):
             if all(x is None for x in n.ins) and all(x is None for x in n.outs) and id(n) not in ios:
@@ -132,7 +134,13 @@ class CircuitSystem:
         if k == 'xline': self.Line(c, (self.find(c, op[1]), op[2]), (self.find(c, op[3]), op[4])); return c
         if k == 'line_remove':
             if op[1] != len(c.lines) - 1: self.swap_deletions += 1
-            c.lines[op[1]].remove(); return c
+            l = c.lines[op[1]]
+            sig = (_key(l.driver), l.driver_pin, _key(l.reader), l.reader_pin)
+            l.remove()
+            c._verif_removed = (l, sig)       # the most recently removed Line object (harness bookkeeping on the circuit object; lost by copy/pickle)
+            return c
+        if k == 'remove_again':
+            c._verif_removed[0].remove(); return c
         if k == 'node_remove':
             n = self.find(c, op[1])
             if n.index != len(c.nodes) - 1: self.swap_deletions += 1
@@ -335,7 +343,7 @@ def apply_only(sysm, c, m, op):
     mop = model_op(c, op)
     c2 = sysm.apply(c, op)
     if op[0] == 'substitute': m.resync(c2)
-    elif op[0] not in ('copy', 'pickle'): m.apply(mop)
+    elif op[0] not in ('copy', 'pickle', 'remove_again'): m.apply(mop)
     return c2
 
 
@@ -357,7 +365,7 @@ def step(sysm, c, m, op):
         if canon(c) != before: v.append((op[0] + '-mutated-original', 'original changed'))
     elif op[0] == 'substitute':
         m.resync(c2)
-    else:
+    elif op[0] != 'remove_again':       # a second remove() changes nothing: the model stays as it is
         m.apply(mop)
     if op[0] != 'substitute':
         v += compare_model(c2, m)
@@ -386,7 +394,7 @@ def explore(sysm, start_hist, max_depth, res, found):
                 res.violation(key, {'history': list(start_hist[:i + 1])}, f'after {list(start_hist[:i + 1])}: {msg}')
         if v: return seen
     prov0 = next((o[0] for o in reversed(start_hist) if o[0] in ('copy', 'pickle')), None)
-    seen.add((canon(c0), prov0, type(c0.nodes).__name__, type(c0.lines).__name__, type(c0.io_nodes).__name__))
+    seen.add((canon(c0), prov0, type(c0.nodes).__name__, type(c0.lines).__name__, type(c0.io_nodes).__name__, (getattr(c0, '_verif_removed', None) or (None, None))[1]))
     q = deque([list(start_hist)])
     while q:
         hist = q.popleft()
@@ -412,7 +420,7 @@ def explore(sysm, start_hist, max_depth, res, found):
             # from here on came into being) and the container types, so everything is explored again behind a copy and behind a
             # pickle round trip.
             prov = next((o[0] for o in reversed(hist + [op]) if o[0] in ('copy', 'pickle')), None)
-            k = (canon(c2), prov, type(c2.nodes).__name__, type(c2.lines).__name__, type(c2.io_nodes).__name__)
+            k = (canon(c2), prov, type(c2.nodes).__name__, type(c2.lines).__name__, type(c2.io_nodes).__name__, (getattr(c2, '_verif_removed', None) or (None, None))[1])
             res.count('op_' + op[0])
             if prov: res.count('transitions_behind_' + prov)
             if k in seen: continue
@@ -506,7 +514,7 @@ def replay(case):
 
 
 def finish(agg, tier):
-    need = ['swap_with_last_deletions', 'op_eliminate', 'op_substitute', 'op_copy', 'op_pickle', 'op_xline', 'op_node_remove']
+    need = ['swap_with_last_deletions', 'op_eliminate', 'op_substitute', 'op_copy', 'op_pickle', 'op_xline', 'op_node_remove', 'op_remove_again']
     missing = [k for k in need if not agg.counters.get(k)]
     if missing: raise common.HarnessError(f'vacuity guard: {missing} zero')
     return {}
